@@ -23,7 +23,7 @@ ASSUMPTIONS = [
     "at most k states more than the minimal reference automaton",
     "element 'metadata' is judged against 'at most one child of any name' (C05), not its empty children section",
 ]
-REQUIRED = ["sequences_longer_than_256", "table_edit_probes", "validations_of_nested_parent", "foreign_children_with_prefix", "validations_on_reused_parent_object", "validations_on_reused_rule_object", "collecting_calls_with_prefilled_list", "failfast_accept", "failfast_reject", "collecting_accept", "collecting_reject", "oracle_crosschecks"]
+REQUIRED = ["child_names_of_a_str_subclass", "mixed_parents_with_blank_or_real_text", "sequences_longer_than_256", "table_edit_probes", "validations_of_nested_parent", "foreign_children_with_prefix", "validations_on_reused_parent_object", "validations_on_reused_rule_object", "collecting_calls_with_prefilled_list", "failfast_accept", "failfast_reject", "collecting_accept", "collecting_reject", "oracle_crosschecks"]
 EXHAUSTIVE = {"quick": False, "thorough": False}
 
 FOREIGN_NAME = "verifForeignElement"
@@ -82,7 +82,8 @@ def _materialise(seq, rule_names=()):
             continue
         variants = [FOREIGN_NAME]
         for nm in rule_names[:3]:
-            variants += [nm.upper(), nm.lower() if nm.lower() != nm else nm.capitalize(), nm + "x", nm[:-1], nm + " "]
+            variants += [nm.upper(), nm.lower() if nm.lower() != nm else nm.capitalize(), nm + "x", nm[:-1], nm + " ",
+                         "{https://eml.ecoinformatics.org/eml-2.2.0}" + nm, "eml:" + nm]
         cand = variants[(i + len(seq)) % len(variants)]
         out.append(cand if cand not in rule_names and cand != "" else FOREIGN_NAME)
     return out
@@ -139,7 +140,19 @@ def judge(ctx, rule_name, element, seq, expected, stats=None, reuse=False):
             # namespace prefix (a prefixed stranger is still a stranger)
             nested = (len(seq) + len(element or "")) % 3 == 0
             pref = {i: ("dc", "stmml", "eml")[i % 3] for i, a in enumerate(seq) if a == relang.FOREIGN and (i + len(seq)) % 2 == 0}
-            parent = emlkit.make_node(rule_name, element, names, nested=nested, child_prefix=pref)
+            bound = "http://www.opengis.net/gml" if pref and len(seq) % 2 == 0 else None
+            # child names are sometimes instances of a str subclass, and a mixed-content parent sometimes holds blank or real text:
+            # neither says anything about the sequence of its children
+            subclass = (len(seq) + len(rule_name)) % 5 == 0
+            content = "__canonical__"
+            if emlkit.is_mixed(rule_name):
+                content = ("__canonical__", " ", "\n    ", "\xa0", "some text", "__canonical__")[(len(seq) + len(element or "")) % 6]
+            parent = emlkit.make_node(rule_name, element, names, nested=nested, child_prefix=pref, child_ns=bound, content=content,
+                                      name_type=emlkit.NameStr if subclass else str)
+            if subclass and names:
+                ctx.count("child_names_of_a_str_subclass")
+            if content != "__canonical__":
+                ctx.count("mixed_parents_with_blank_or_real_text")
             if nested:
                 ctx.count("validations_of_nested_parent")
             if pref:
